@@ -1,6 +1,7 @@
 package drv
 
 import (
+	"strings"
 	"sync"
 	"sync/atomic"
 	"time"
@@ -20,6 +21,7 @@ type cwExp struct {
 	hold   string   // precommit | committed
 	intr   []string // WG0 (UNSTABLE write g) | WG2 | COMMITG | CREATEK | WK0
 	after  []string // COMMITG | COMMITF | none
+	full   bool     // the disk is filled completely first: what the victim frees is all there is to allocate
 }
 
 func commitWindowExps() []cwExp {
@@ -27,12 +29,29 @@ func commitWindowExps() []cwExp {
 	for _, v := range []string{"COMMITF", "WRITEF2", "WRITEF0", "CREATE", "SETATTRF", "REMOVEX"} {
 		for _, h := range []string{"precommit", "committed"} {
 			out = append(out,
-				cwExp{v, h, []string{"WG0"}, []string{"COMMITG"}},
-				cwExp{v, h, []string{"WG0"}, nil},
-				cwExp{v, h, []string{"WG0", "COMMITG"}, nil},
-				cwExp{v, h, []string{"WG2"}, nil},
-				cwExp{v, h, []string{"WG0", "WG0b"}, []string{"COMMITG"}},
-				cwExp{v, h, []string{"WG0"}, []string{"COMMITF"}},
+				cwExp{v, h, []string{"WG0"}, []string{"COMMITG"}, false},
+				cwExp{v, h, []string{"WG0"}, nil, false},
+				cwExp{v, h, []string{"WG0", "COMMITG"}, nil, false},
+				cwExp{v, h, []string{"WG2"}, nil, false},
+				cwExp{v, h, []string{"WG0", "WG0b"}, []string{"COMMITG"}, false},
+				cwExp{v, h, []string{"WG0"}, []string{"COMMITF"}, false},
+			)
+		}
+	}
+	// a request the journal refuses as too large, inside another request's commit (flush positions, shared commit state)
+	for _, v := range []string{"COMMITF", "WRITEF2", "CREATE", "SETATTRF", "REMOVEX"} {
+		for _, h := range []string{"precommit", "committed"} {
+			out = append(out, cwExp{v, h, []string{"BIGSYM"}, nil, false}, cwExp{v, h, []string{"WG0", "BIGSYM"}, []string{"COMMITG"}, false})
+		}
+	}
+	// full disk: the victim frees blocks, the intruder needs blocks while the victim is inside its commit
+	for _, v := range []string{"REMOVEB", "TRUNCB", "RENOVB"} {
+		for _, h := range []string{"precommit", "committed"} {
+			out = append(out,
+				cwExp{v, h, []string{"WG2"}, []string{"RG"}, true},
+				cwExp{v, h, []string{"WG2", "RG"}, []string{"RG"}, true},
+				cwExp{v, h, []string{"WG0", "COMMITG"}, []string{"RG"}, true},
+				cwExp{v, h, []string{"CREATEK", "WG2"}, []string{"RG"}, true},
 			)
 		}
 	}
@@ -50,13 +69,17 @@ func RunCommitWindows(part, parts int, t *Trace, seg int) int {
 }
 
 func runCommitWindow(k int, e cwExp, t *Trace, seg int) int {
-	d := vdisk.New(8000)
+	dsz := uint64(8000)
+	if e.full {
+		dsz = 1800
+	}
+	d := vdisk.New(dsz)
 	s, err := Start(d, true)
 	if err != nil {
 		panic(err)
 	}
 	root := RootFh()
-	t.Emit(Reset{Ev: "reset", Seg: seg, Driver: "window-commit", Seed: k, DiskSz: 8000, Unstable: true, Root: root})
+	t.Emit(Reset{Ev: "reset", Seg: seg, Driver: "window-commit", Seed: k, DiskSz: int(dsz), Unstable: true, Root: root})
 	seg++
 	var seq int64
 	idx := 0
@@ -81,6 +104,9 @@ func runCommitWindow(k int, e cwExp, t *Trace, seg int) int {
 		idx++
 		c.Cl = cl
 		c.NLen, c.NLen2 = len(c.Name), len(c.Name2)
+		if e.full {
+			c.FreeB, c.FreeI = s.Free() // on a full disk a request may be refused for lack of space
+		}
 		a := atomic.AddInt64(&seq, 1)
 		done := make(chan struct{})
 		go func() { defer close(done); c.ExecRaw(s.API) }()
@@ -126,6 +152,22 @@ func runCommitWindow(k int, e cwExp, t *Trace, seg int) int {
 	mk(0, "CREATE", root, "x")
 	wr(0, fhF, 0, 3000, 40, 2)
 	wr(0, fhF, 3000, 3000, 41, 0) // an unstable write is outstanding when the victim starts
+	if e.full {
+		fhB := mk(0, "CREATE", root, "b").RFh
+		wr(0, fhB, 0, 3*4096, 43, 2)
+		fill := mk(0, "CREATE", dd, "filler").RFh
+		off := 0
+		for _, chunk := range []int{100 * 4096, 4096} {
+			for {
+				c := wr(0, fill, off, chunk, 44, 2)
+				if c.St != "OK" || c.RCount == 0 {
+					break
+				}
+				off += c.RCount
+			}
+		}
+		_ = fhB
+	}
 	// victim
 	var v *Call
 	switch e.victim {
@@ -145,9 +187,22 @@ func runCommitWindow(k int, e cwExp, t *Trace, seg int) int {
 	case "SETATTRF":
 		v = NewCall("SETATTR")
 		v.Fh, v.SetSize, v.Size = fhF, true, 1000
+	case "REMOVEB":
+		v = NewCall("REMOVE")
+		v.Fh, v.Name, v.NLen = root, "b", 1
+	case "TRUNCB":
+		lb := mk(0, "LOOKUP", root, "b")
+		v = NewCall("SETATTR")
+		v.Fh, v.SetSize, v.Size = lb.RFh, true, 0
+	case "RENOVB":
+		v = NewCall("RENAME")
+		v.Fh, v.Name, v.NLen, v.Fh2, v.Name2, v.NLen2 = root, "x", 1, root, "b", 1
 	default:
 		v = NewCall("REMOVE")
 		v.Fh, v.Name, v.NLen = root, "x", 1
+	}
+	if e.full {
+		v.FreeB, v.FreeI = s.Free()
 	}
 	v.Cl, v.I = 1, 1000
 	vdone := make(chan struct{})
@@ -180,6 +235,14 @@ func runCommitWindow(k int, e cwExp, t *Trace, seg int) int {
 			commit(cl, fhF)
 		case "CREATEK":
 			mk(cl, "CREATE", dd, "k2")
+		case "RG":
+			c := NewCall("READ")
+			c.Fh, c.Off, c.Cnt = fhG, 0, 8192
+			do(cl, c)
+		case "BIGSYM": // refused by the journal: larger than one transaction
+			c := NewCall("SYMLINK")
+			c.Fh, c.Name, c.Target, c.TLen = dd, "huge", strings.Repeat("t", 2200000), 2200000
+			do(cl, c)
 		}
 	}
 	if window {
